@@ -86,6 +86,11 @@ val opt_vt_eqb : vt option -> vt -> bool
 
 val wrap_pointers : nat -> vt -> vt
 
+val address_arm_cond : bool -> coq_N -> vt -> bool
+
+val autoderef_finish_gen :
+  bool -> tstep list -> vt -> vt -> coq_N -> ad_result
+
 val autoderef_finish : tstep list -> vt -> vt -> coq_N -> ad_result
 
 val autoderef :
